@@ -248,11 +248,12 @@ impl Engine {
             Expect::Err
         } else if self.oracle_blocks() || self.m.cfg.channel != self.ch.channel {
             Expect::Err
-        } else if unusual && to_protocol {
+        } else if (unusual && to_protocol) || self.prefix_foreign() {
             Expect::Any
         } else {
             Expect::Ok
         };
+        let exp_outcome = if self.prefix_foreign() && exp_outcome == Expect::Err && !self.m.halted && *funds == Funds::Exact { Expect::Any } else { exp_outcome };
         if exp_outcome == Expect::Ok && self.m.n.checked_add(a).is_none() {
             return; // outside the 128-bit domain; cannot happen with amounts <= 10^27
         }
@@ -810,6 +811,7 @@ impl Engine {
                 Some(_) if fail => (Expect::Err, vec!["C07"]),
                 Some(_) if self.oracle_blocks() => (Expect::Err, vec!["C15"]),
                 Some(_) if self.m.cfg.channel != self.ch.channel => (Expect::Err, vec!["C07"]),
+                Some(_) if self.prefix_foreign() => (Expect::Any, vec![]),
                 Some(_) => (Expect::Ok, vec!["C11", "C09"]),
             }
         };
@@ -1336,6 +1338,7 @@ impl Engine {
         let sender = self.caller_addr(user);
         let mut next = self.m.cfg.clone();
         let (mut nc, mut pc, mut fc, mut mon, mut bp) = (None, None, None, None, None);
+        let mut new_prefix_len: Option<usize> = None;
         match change {
             CfgChange::Fee(rate, t) => {
                 next.fee_rate = *rate as u128;
@@ -1416,6 +1419,26 @@ impl Engine {
                     bp = Some(v);
                 }
             }
+            CfgChange::ChannelSpelling(k) => {
+                let n = self.a.channel.strip_prefix("channel-").unwrap_or("0").to_string();
+                next.channel = format!("channel-{}{}", "0".repeat(1 + (*k as usize % 3)), n);
+                let mut p = self.protocol_cfg();
+                p.ibc_channel_id = next.channel.clone();
+                pc = Some(p);
+                self.identity_changed = true;
+            }
+            CfgChange::ProtocolPrefix(k) => {
+                let len = [0usize, 2, 10, 44, 83, 84][*k as usize % 6];
+                let newp = if len == 0 { self.a.pprefix.clone() } else { format!("p{}", "q".repeat(len - 1)) };
+                new_prefix_len = Some(newp.len());
+                next.pprefix = newp.clone();
+                next.oracle = None;
+                let mut p = self.protocol_cfg();
+                p.account_address_prefix = newp;
+                p.oracle_address = None;
+                pc = Some(p);
+                self.identity_changed = true;
+            }
             CfgChange::Channel(other) => {
                 next.channel = if *other { self.a.other_channel.clone() } else { self.a.channel.clone() };
                 let mut p = self.protocol_cfg();
@@ -1431,7 +1454,16 @@ impl Engine {
                 bp = Some(self.m.cfg.batch_period);
             }
         }
-        let exp = if sender == self.m.admin { Expect::Ok } else { Expect::Err };
+        let exp = if sender != self.m.admin {
+            Expect::Err
+        } else if new_prefix_len.map(|l| l > 83).unwrap_or(false) {
+            Expect::Err
+        } else if self.prefix_foreign() && new_prefix_len.is_none() {
+            // addresses built under the chain prefix are not valid under the configured one
+            Expect::Any
+        } else {
+            Expect::Ok
+        };
         let before = self.bank_snapshot();
         let out = self.ch.execute(
             &sender,
@@ -1441,7 +1473,7 @@ impl Engine {
         let what = format!("UpdateConfig by {sender} {:?}", change);
         self.note(format!("{what} -> {}", out.ok));
         self.stats.bump(if out.ok { "Config.ok" } else { "Config.err" });
-        if !self.expect(&["C08", "C14"], &what, exp, &out) {
+        if !self.expect(&["C08", "C14", "C09"], &what, exp, &out) {
             if !out.ok {
                 self.after_rejected(&what, &before);
             }
